@@ -12,7 +12,7 @@ import (
 // bounded stand-in: every sequential program within the bound is run on the real output stream and
 // compared with a sorted-map model after every step (only lookups that do not block are made: GetNext(x)
 // is called when the model has a batch after x).
-const streamBound = "all sequential programs of up to %d operations (quick tier: 5, thorough tier: 7) from {Add(next id, 1 message), Add(next id, 2 messages), Delete(oldest batch), Delete(newest batch), Delete(second oldest batch), Delete(an id that does not exist, below the newest)}, never deleting the sentinel 0 or the only remaining batch; after every step Get(x) for x in 0..newest+1 and GetNext(x) for every x that has a successor are compared with a sorted-map model, LastSeen with the newest batch"
+const streamBound = "all sequential programs of up to %d operations (quick tier: 5, thorough tier: 7) from {Add(next id, 1 message), Add(next id, 2 messages), Delete(oldest batch), Delete(newest batch), Delete(second oldest batch), Delete(an id that does not exist, just below / just above the newest)}, never deleting the sentinel 0 or the only remaining batch; after every step Get(x) for x in 0..newest+1 and GetNext(x) for every x that has a successor are compared with a sorted-map model, LastSeen with the newest batch"
 
 const streamTest = `package outputstream
 
@@ -96,6 +96,10 @@ func TestBoundedStreamPrograms(t *testing.T) {
 		{"DeleteMissing", func(m *model) bool { return len(m.batches) >= 2 }, func(o *OutputStream, m *model) error {
 			e := ids(m)
 			return o.Delete(robust.Id{Id: e[len(e)-1] - 1}) // ids are even, so newest-1 never exists
+		}},
+		{"DeleteBeyond", func(m *model) bool { return len(m.batches) >= 2 }, func(o *OutputStream, m *model) error {
+			e := ids(m)
+			return o.Delete(robust.Id{Id: e[len(e)-1] + 1}) // larger than the newest batch, does not exist
 		}},
 	}
 	same := func(a, b []Message) bool {
